@@ -41,7 +41,7 @@ macro_rules! v_core {
         let desc = || format!("{} view of {:?}", enc.name, abs);
         let r = $crate::guard::guarded(|| -> Result<(), (String, String, String)> {
             let e = |c: &str, s: &str, d: String| Err((c.to_string(), s.to_string(), d));
-            if petgraph::visit::GraphProp::is_directed(&g) != abs.directed {
+            if petgraph::visit::GraphProp::is_directed(g) != abs.directed {
                 return e("GraphProp::is_directed", "wrong for this view", String::new());
             }
             let ids: Vec<usize> = petgraph::visit::IntoNodeIdentifiers::node_identifiers(g).map(|x| enc.abs(x)).collect();
@@ -52,13 +52,13 @@ macro_rules! v_core {
             if refs != ids {
                 return e("IntoNodeReferences::node_references", "ids differ from node_identifiers", format!("got {:?} vs {:?}", refs, ids));
             }
-            let bound = petgraph::visit::NodeIndexable::node_bound(&g);
+            let bound = petgraph::visit::NodeIndexable::node_bound(g);
             for a in 0..n {
-                let ix = petgraph::visit::NodeIndexable::to_index(&g, enc.id(a));
+                let ix = petgraph::visit::NodeIndexable::to_index(g, enc.id(a));
                 if ix >= bound {
                     return e("NodeIndexable::to_index", "not below node_bound", format!("node {} index {} bound {}", a, ix, bound));
                 }
-                if petgraph::visit::NodeIndexable::from_index(&g, ix) != enc.id(a) {
+                if petgraph::visit::NodeIndexable::from_index(g, ix) != enc.id(a) {
                     return e("NodeIndexable::from_index", "is not the inverse of to_index", format!("node {} index {}", a, ix));
                 }
             }
@@ -108,15 +108,32 @@ macro_rules! v_core {
                 if ms(ed.clone()) != ms(want_ed.clone()) {
                     return e("IntoEdges::edges", "is not the matching subset of edge_references with the queried node as source", format!("node {} got {:?} want {:?}", a, ed, want_ed));
                 }
+                // edge ids handed out by edges(a): pairwise distinct, and where an id is one of edge_references' ids it
+                // denotes the same edge (Csr<Undirected> keeps a second entry per edge whose id edge_references never shows)
+                let rids: Vec<_> = petgraph::visit::IntoEdges::edges(g, enc.id(a)).map(|r| (r.id(), enc.abs(r.source()), enc.abs(r.target()), *r.weight())).collect();
+                for i in 0..rids.len() {
+                    for j in 0..i {
+                        if rids[i].0 == rids[j].0 {
+                            return e("IntoEdges::edges", "two edge references of one node share an id", format!("node {} positions {} {}", a, i, j));
+                        }
+                    }
+                    if let Some(p) = eids.iter().position(|x| *x == rids[i].0) {
+                        let (s0, t0, w0) = er[p];
+                        let same = (s0, t0, w0) == (rids[i].1, rids[i].2, rids[i].3) || (!abs.directed && (t0, s0, w0) == (rids[i].1, rids[i].2, rids[i].3));
+                        if !same {
+                            return e("IntoEdges::edges", "an edge id denotes a different edge than the same id in edge_references", format!("node {} edge {:?} vs {:?}", a, (rids[i].1, rids[i].2, rids[i].3), er[p]));
+                        }
+                    }
+                }
             }
             // Visitable: the map accepts every live id
-            let mut vm = petgraph::visit::Visitable::visit_map(&g);
+            let mut vm = petgraph::visit::Visitable::visit_map(g);
             for a in 0..n {
                 if vm.is_visited(&enc.id(a)) || !vm.visit(enc.id(a)) || !vm.is_visited(&enc.id(a)) || vm.visit(enc.id(a)) {
                     return e("Visitable::visit_map", "visit / is_visited inconsistent for a live node", format!("node {}", a));
                 }
             }
-            petgraph::visit::Visitable::reset_map(&g, &mut vm);
+            petgraph::visit::Visitable::reset_map(g, &mut vm);
             if (0..n).any(|a| vm.is_visited(&enc.id(a))) {
                 return e("Visitable::reset_map", "leaves a node visited", String::new());
             }
@@ -252,7 +269,7 @@ macro_rules! v_edge_indexable {
         let g = &enc.g;
         let desc = || format!("{} view of {:?}", enc.name, $abs);
         let r = $crate::guard::guarded(|| -> Result<(), String> {
-            let bound = petgraph::visit::EdgeIndexable::edge_bound(&g);
+            let bound = petgraph::visit::EdgeIndexable::edge_bound(g);
             let mut seen = vec![];
             for r in petgraph::visit::IntoEdgeReferences::edge_references(g) {
                 let ix = EdgeIndexable::to_index(g, r.id());
@@ -287,10 +304,10 @@ macro_rules! v_compact {
         let enc = $enc;
         is_compact(&&enc.g);
         let g = &enc.g;
-        let mut ix: Vec<usize> = (0..$abs.n).map(|a| petgraph::visit::NodeIndexable::to_index(&g, enc.id(a))).collect();
+        let mut ix: Vec<usize> = (0..$abs.n).map(|a| petgraph::visit::NodeIndexable::to_index(g, enc.id(a))).collect();
         ix.sort();
-        if ix != (0..petgraph::visit::NodeIndexable::node_bound(&g)).collect::<Vec<_>>() {
-            $ctx.viol("NodeCompactIndexable", "node indices are not exactly 0..node_bound", format!("{} view of {:?}: indices {:?} bound {}", enc.name, $abs, ix, petgraph::visit::NodeIndexable::node_bound(&g)));
+        if ix != (0..petgraph::visit::NodeIndexable::node_bound(g)).collect::<Vec<_>>() {
+            $ctx.viol("NodeCompactIndexable", "node indices are not exactly 0..node_bound", format!("{} view of {:?}: indices {:?} bound {}", enc.name, $abs, ix, petgraph::visit::NodeIndexable::node_bound(g)));
         }
     }};
 }
